@@ -903,3 +903,199 @@ def r3k(ctx: Ctx) -> list[Ob]:
             out.append(ok("R3k", c.qualname, "config==init", f"config keys {sorted(keys)} cover the hyper-parameters of __init__", c.loc))
         _roundtrip(ctx, c, "config", "R3k", out)
     return out
+
+
+# ------------------------------------------------------------------------------------------ R3l / R3m
+ADDRESS_BOOK_MODULES = (
+    "cirkit.backend.torch.graph.folding",
+    "cirkit.backend.torch.graph.modules",
+    "cirkit.backend.torch.parameters.parameter",
+    "cirkit.backend.torch.circuits",
+)
+
+
+def _mentions(ld: LocalDefs, e: ast.AST, name: str, depth: int = 2) -> bool:
+    seen: set[int] = set()
+    work = [(e, depth)]
+    while work:
+        x, d = work.pop()
+        if id(x) in seen:
+            continue
+        seen.add(id(x))
+        for n in ast.walk(x):
+            if isinstance(n, ast.Name) and n.id == name:
+                return True
+            if isinstance(n, ast.Attribute) and n.attr == name:
+                return True
+            if isinstance(n, ast.Name) and d > 0:
+                for df in ld.defs.get(n.id, []):
+                    work.append((df, d - 1))
+    return False
+
+
+def r3l(ctx: Ctx) -> list[Ob]:
+    """R3l -- the offsets of the address-book builders are exclusive prefix sums of the fold counts.
+
+    Both builders address fold j of input module k at ``offset[k] + j`` in the concatenation of the
+    input modules; ``offset[k]`` has to be the sum of ``num_folds`` of the modules *before* k.  The rule
+    recognises the two ways of computing that: (a) ``accumulate`` / ``cumsum`` over a sequence that
+    derives from ``num_folds`` and starts with a 0 (``[0] + sizes`` or ``initial=0``); (b) a running
+    variable initialised to 0 and updated additively (``+=`` / ``v = v + ..``) from ``num_folds`` in a
+    loop.  A running variable that is *overwritten* by the fold count (``offset = num_folds[mid]``) or an
+    accumulate without the leading 0 gives the right offsets for one or two input modules -- all the
+    suite builds -- and addresses another operand's folds from the third module on."""
+    out: list[Ob] = []
+    for fname in ("build_address_book_entry", "build_address_book_stacked_entry"):
+        f = ctx.repo.func(f"{FOLDING}.{fname}")
+        ld = LocalDefs(f.node)
+        found = False
+        # (a) accumulate / cumsum
+        for n in ast.walk(f.node):
+            if not isinstance(n, ast.Call):
+                continue
+            cal = (dotted(n.func) or "").split(".")[-1]
+            if isinstance(n.func, ast.Attribute):
+                cal = n.func.attr
+            if cal not in ("accumulate", "cumsum"):
+                continue
+            arg = n.args[0] if n.args else (n.func.value if isinstance(n.func, ast.Attribute) else None)
+            if cal == "cumsum" and isinstance(n.func, ast.Attribute) and not (dotted(n.func.value) or "").split(".")[-1] in ("np", "numpy", "torch"):
+                arg = n.func.value
+            if arg is None or not _mentions(ld, arg, "num_folds"):
+                continue
+            found = True
+            inst = f"prefix-sum:{unparse(n)[:50]}"
+            loc = f"{f.module.relpath}:{n.lineno}"
+            zero_first = False
+            a = _hoist(ld, arg)
+            for x in ast.walk(a):
+                if isinstance(x, ast.BinOp) and isinstance(x.op, ast.Add) and isinstance(x.left, (ast.List, ast.Tuple)) and len(x.left.elts) == 1 and isinstance(x.left.elts[0], ast.Constant) and x.left.elts[0].value == 0:
+                    zero_first = True
+                if isinstance(x, (ast.List, ast.Tuple)) and x.elts and isinstance(x.elts[0], ast.Constant) and x.elts[0].value == 0 and any(isinstance(e, ast.Starred) for e in x.elts[1:]):
+                    zero_first = True
+            if any(k.arg == "initial" and isinstance(k.value, ast.Constant) and k.value.value == 0 for k in n.keywords):
+                zero_first = True
+            if zero_first:
+                out.append(ok("R3l", f.qualname, inst, "offsets are the exclusive prefix sums of the fold counts (leading 0)", loc))
+            else:
+                out.append(viol("R3l", f.qualname, inst, f"`{unparse(n)[:80]}` accumulates the fold counts without a leading 0: the offset of module k then includes its own fold count (every module after the first is addressed one module too far)", loc))
+        # (b) running variables
+        zero_init = {
+            t.id
+            for n in ast.walk(f.node)
+            if isinstance(n, ast.Assign) and isinstance(n.value, ast.Constant) and n.value.value == 0 and not isinstance(n.value.value, bool)
+            for t in n.targets
+            if isinstance(t, ast.Name)
+        } | {
+            n.target.id
+            for n in ast.walk(f.node)
+            if isinstance(n, ast.AnnAssign) and isinstance(n.target, ast.Name) and isinstance(n.value, ast.Constant) and n.value.value == 0
+        }
+        seen_nodes: set[int] = set()
+        for loop in [n for n in ast.walk(f.node) if isinstance(n, (ast.For, ast.While))]:
+            for n in walk_no_nested(loop):
+                if id(n) in seen_nodes:
+                    continue
+                seen_nodes.add(id(n))
+                tgt, val, aug = None, None, False
+                if isinstance(n, ast.AugAssign) and isinstance(n.target, ast.Name):
+                    tgt, val, aug = n.target.id, n.value, isinstance(n.op, ast.Add)
+                elif isinstance(n, ast.Assign) and len(n.targets) == 1 and isinstance(n.targets[0], ast.Name) and not (isinstance(n.value, ast.Constant)):
+                    tgt, val = n.targets[0].id, n.value
+                if tgt is None or tgt not in zero_init or val is None:
+                    continue
+                if not any(isinstance(x, ast.Name) and x.id == "num_folds" for x in ast.walk(val)) and not _mentions(ld, val, "num_folds", 1):
+                    continue
+                found = True
+                inst = f"running-offset:{tgt}"
+                loc = f"{f.module.relpath}:{n.lineno}"
+                additive = aug or (
+                    isinstance(val, ast.BinOp) and isinstance(val.op, ast.Add) and any(isinstance(s, ast.Name) and s.id == tgt for s in (val.left, val.right))
+                )
+                if additive:
+                    out.append(ok("R3l", f.qualname, inst, f"`{unparse(n)[:60]}` accumulates the fold counts", loc))
+                elif isinstance(n, ast.AugAssign):
+                    out.append(viol("R3l", f.qualname, inst, f"`{unparse(n)[:60]}`: the running offset is not updated by addition", loc))
+                else:
+                    out.append(viol("R3l", f.qualname, inst, f"`{unparse(n)[:60]}` overwrites the running offset with a fold count instead of adding to it: offsets are right for the first two input modules and point into another module's folds from the third on (a folded concatenation of three circuits reads the second operand's parameters for the third)", loc))
+        if not found:
+            # (c) sum over a prefix slice
+            for n in ast.walk(f.node):
+                if isinstance(n, ast.Call) and isinstance(n.func, ast.Name) and n.func.id == "sum" and n.args and _mentions(ld, n.args[0], "num_folds"):
+                    if any(isinstance(x, ast.Slice) and x.lower is None and x.upper is not None for x in ast.walk(n.args[0])):
+                        found = True
+                        out.append(ok("R3l", f.qualname, f"prefix-sum:{unparse(n)[:50]}", "offsets are sums over a prefix slice of the fold counts", f"{f.module.relpath}:{n.lineno}"))
+        if not found:
+            out.append(unres("R3l", f.qualname, "prefix-sum", "how the offsets derive from num_folds was not recognised (neither accumulate / cumsum, nor a running sum, nor a sum over a prefix): no verdict", f.loc))
+    return out
+
+
+def r3m(ctx: Ctx) -> list[Ob]:
+    """R3m -- fold indices are positional and are never re-ordered.
+
+    Entry i of a fold index (``in_fold_idx`` / ``out_fold_idx`` / ``fold_idx``) says where fold i of a
+    module's input or of the graph's output comes from; the consumers (parameters stacked per layer
+    fold, outputs of a concatenation, evidence observations per wrapped layer) read the result by
+    position.  In the modules that build and use address books no order-changing operation
+    (``sorted``, ``reversed``, ``set``, ``.sort()``, ``.reverse()``) may be applied to one: the result
+    has the same shape and the same elements, so nothing raises, and it is the identity for a single
+    output module, which is all the suite folds."""
+    out: list[Ob] = []
+    n_fn = 0
+    for f in ctx.repo.iter_functions():
+        if f.module.name not in ADDRESS_BOOK_MODULES:
+            continue
+        ld = LocalDefs(f.node)
+        uses_idx = False
+        for n in walk_no_nested(f.node):
+            if isinstance(n, (ast.Name, ast.Attribute, ast.arg)):
+                nm = n.id if isinstance(n, ast.Name) else n.attr if isinstance(n, ast.Attribute) else n.arg
+                if nm.endswith("fold_idx"):
+                    uses_idx = True
+        if not uses_idx:
+            continue
+        n_fn += 1
+        bad: list[tuple[ast.AST, str]] = []
+        for n in ast.walk(f.node):
+            if not isinstance(n, ast.Call):
+                continue
+            target: ast.AST | None = None
+            what = ""
+            if isinstance(n.func, ast.Name) and n.func.id in ("sorted", "reversed", "set", "frozenset") and n.args:
+                target, what = n.args[0], n.func.id + "(..)"
+            elif isinstance(n.func, ast.Attribute) and n.func.attr in ("sort", "reverse") and not n.args:
+                target, what = n.func.value, "." + n.func.attr + "()"
+            if target is None:
+                continue
+            direct = any(_is_fold_idx(x) for x in ast.walk(target))
+            if not direct and isinstance(target, ast.Name):
+                defs = [df for df in ld.defs.get(target.id, []) if isinstance(df, ast.expr)]
+                # an element drawn from the index (`for idx in fold_idx`, recorded as ITER) is not the index
+                defs = [df for df in defs if not (isinstance(df, ast.Subscript) and isinstance(df.slice, ast.Name) and df.slice.id == "*")]
+                direct = any(_is_fold_idx(x) for df in defs for x in ast.walk(df)) and not any(_projects(df) for df in defs)
+            if direct and _projects(target):
+                direct = False
+            if direct:
+                bad.append((n, what))
+        if bad:
+            for n, what in bad:
+                out.append(viol("R3m", f.qualname, f"reordered:{unparse(n)[:50]}", f"{what} re-orders a fold index (`{unparse(n)[:80]}`): entry i no longer describes fold i, so the folds of the result are permuted whenever they come from more than one module, interleaved (evidence on mixed-dtype observations, a concatenation repeating an operand)", f"{f.module.relpath}:{n.lineno}"))
+        else:
+            out.append(ok("R3m", f.qualname, "fold-index-order", "no order-changing operation on a fold index", f.loc))
+    if n_fn == 0:
+        raise AnalysisError("R3m: no function of the address-book modules uses a fold index (anchor vanished)")
+    return out
+
+
+def _is_fold_idx(x: ast.AST) -> bool:
+    return (isinstance(x, ast.Name) and x.id.endswith("fold_idx")) or (isinstance(x, ast.Attribute) and x.attr.endswith("fold_idx"))
+
+
+def _projects(e: ast.AST) -> bool:
+    """the expression keeps only a component of the entries (`idx[0] for idx in fold_idx`: the set of
+    module ids), so its order is not the order of the folds"""
+    for n in ast.walk(e):
+        if isinstance(n, (ast.ListComp, ast.GeneratorExp, ast.SetComp)):
+            if isinstance(n.elt, ast.Subscript) and isinstance(n.elt.slice, ast.Constant):
+                return True
+    return False
